@@ -108,40 +108,50 @@ def constVsFixed (A : Shape) (n : Nat) : RType :=
 def constVsBounded (A : Shape) (dim : Nat) : RType :=
   if A.any (fun v => v == 1) then .svec dim else .clippedArr (listMax A) A.length
 
-/-- `meta::resolve_optype<void, index::broadcast_shape_t, ashape_t, bshape_t>` (broadcast_shape.hpp:307-510) -/
-def resolveBroadcast (a b : KShape) : RType :=
-  let ai := a.info
-  let bi := b.info
-  if (ai.const || ai.bounds.isSome) && (bi.const || bi.bounds.isSome) then
-    match a.toValue, b.toValue with
-    | some A, some B =>
-      match broadcastShape2 A B with
-      | some R => if ai.const && bi.const then .constT R else .clippedT R
-      | none => if !ai.const || !bi.const then .arr (max ai.lenv bi.lenv) else .error
-    | _, _ => .error
-  else if ai.isNone && bi.const then .constT b.vals
-  else if ai.const && bi.isNone then .constT a.vals
-  else if ai.isNone && bi.isNone then .noneT
-  else if !ai.isNone && !bi.isNone then
-    if ai.lenv > 0 && bi.lenv > 0 then
-      let n := max ai.lenv bi.lenv
-      if ai.const && ai.lenv ≥ bi.lenv then constVsFixed a.vals n
-      else if bi.const && bi.lenv ≥ ai.lenv then constVsFixed b.vals n
-      else .arr n
-    else
-      match (if ai.lenv > 0 then bi.bsize else none), (if bi.lenv > 0 then ai.bsize else none) with
-      | some cb, _ =>
-        let dim := max ai.lenv cb
-        if ai.const && ai.lenv ≥ cb then constVsBounded a.vals dim else .svec dim
-      | none, some ca =>
-        let dim := max bi.lenv ca
-        if bi.const && bi.lenv ≥ ca then constVsBounded b.vals dim else .svec dim
-      | none, none =>
-        match ai.bsize, bi.bsize with
+/-- `is_constant_index_array_v || is_clipped_index_array_v`: `to_value_v` exists -/
+def KShape.isStatic (a : KShape) : Bool := a.info.const || a.info.bounds.isSome
+
+/-- both operands known at compile time (constant values / clipped bounds `A`, `B`): the broadcast is computed on
+    them at compile time (broadcast_shape.hpp:317-351) -/
+def resolveStatic (bothConst : Bool) (n : Nat) (A B : Shape) : RType :=
+  match broadcastShape2 A B with
+  | some R => if bothConst then .constT R else .clippedT R
+  | none => if bothConst then .error else .arr n
+
+/-- both lengths known at compile time (broadcast_shape.hpp:371-399) -/
+def resolveFixed (a b : KShape) : RType :=
+  let n := max a.info.lenv b.info.lenv
+  if a.info.const && decide (a.info.lenv ≥ b.info.lenv) then constVsFixed a.vals n
+  else if b.info.const && decide (b.info.lenv ≥ a.info.lenv) then constVsFixed b.vals n
+  else .arr n
+
+/-- `a` of known length against an operand of bounded length `cb` (broadcast_shape.hpp:400-485) -/
+def resolveVsBounded (a : KShape) (cb : Nat) : RType :=
+  let dim := max a.info.lenv cb
+  if a.info.const && decide (a.info.lenv ≥ cb) then constVsBounded a.vals dim else .svec dim
+
+/-- two index arrays, not both static (broadcast_shape.hpp:362-494) -/
+def resolveIndex (a b : KShape) : RType :=
+  if a.info.lenv > 0 ∧ b.info.lenv > 0 then resolveFixed a b
+  else match decide (a.info.lenv > 0), b.info.bsize with
+    | true, some cb => resolveVsBounded a cb
+    | _, _ =>
+      match decide (b.info.lenv > 0), a.info.bsize with
+      | true, some ca => resolveVsBounded b ca
+      | _, _ =>
+        match a.info.bsize, b.info.bsize with
         | some ca, some cb => .svec (max ca cb)
         | _, _ => .list
-  else if ai.isNone then RType.ofOperand b
-  else RType.ofOperand a
+
+/-- `meta::resolve_optype<void, index::broadcast_shape_t, ashape_t, bshape_t>` (broadcast_shape.hpp:307-510) -/
+def resolveBroadcast (a b : KShape) : RType :=
+  if a.isStatic && b.isStatic then
+    match a.toValue, b.toValue with
+    | some A, some B => resolveStatic (a.info.const && b.info.const) (max a.info.lenv b.info.lenv) A B
+    | _, _ => .error
+  else if a.info.isNone then (if b.info.isNone then .noneT else RType.ofOperand b)
+  else if b.info.isNone then RType.ofOperand a
+  else resolveIndex a b
 
 /-- storing the computed extents `r` into the result container: `(stored value, clamp events, capacity events)` -/
 def RType.store (t : RType) (r : Shape) : Shape × Nat × Nat :=
@@ -171,10 +181,19 @@ def RType.asOperand (t : RType) : KShape := { info := t.info, vals := t.constVal
 /-- an operand seen as a (never failing) result -/
 def KShape.out (a : KShape) : KOut := { ty := RType.ofOperand a, val := some a.vals }
 
+/-- the run-time part of one call with result container `t`: Nothing is sticky (the `is_maybe` overloads), the loop
+    result is stored into `t` -/
+def kRuntime (t : RType) (xv yv : Option Shape) : KOut :=
+  match xv, yv with
+  | some a, some b =>
+    match broadcastShape2 a b with
+    | none => { ty := t, val := none }
+    | some r => { ty := t, val := some (t.store r).1, clamps := (t.store r).2.1, overflows := (t.store r).2.2 }
+  | _, _ => { ty := t, val := none }
+
 /-- `index::broadcast_shape(x, y)` on results of earlier calls (or plain operands): the TYPE is resolved from the
-    operand types alone (`none` = the call does not compile), Nothing is sticky (the `is_maybe` overloads), a
-    constant result is the value computed at compile time, otherwise the loop result is stored into the chosen
-    container. -/
+    operand types alone (`none` = the call does not compile); a constant result is the value computed at compile
+    time; otherwise `kRuntime`.  The hook events of the operands' own computations are carried along. -/
 def kPair (x y : KOut) : Option KOut :=
   let t := resolveBroadcast x.ty.asOperand y.ty.asOperand
   let c := x.clamps + y.clamps
@@ -184,14 +203,8 @@ def kPair (x y : KOut) : Option KOut :=
   | .constT v => some { ty := t, val := some v, clamps := c, overflows := o }
   | .noneT => some { ty := t, val := some [], clamps := c, overflows := o }
   | _ =>
-    match x.val, y.val with
-    | some xv, some yv =>
-      match broadcastShape2 xv yv with
-      | none => some { ty := t, val := none, clamps := c, overflows := o }
-      | some r =>
-        let (s, c', o') := t.store r
-        some { ty := t, val := some s, clamps := c + c', overflows := o + o' }
-    | _, _ => some { ty := t, val := none, clamps := c, overflows := o }
+    let k := kRuntime t x.val y.val
+    some { k with clamps := c + k.clamps, overflows := o + k.overflows }
 
 /-- one `index::broadcast_shape(a, b)` under the operand kinds -/
 def kBroadcast2 (a b : KShape) : Option KOut := kPair a.out b.out
